@@ -1,27 +1,12 @@
 (* Tie_C05_ens_01.v -- GENERATED ONCE by harness/gen_tie_C05_ens.py and committed.
-   Exact ensemble covariance of Stokes parameters 0 and 1 of one superposed instance. *)
+   Exact ensemble covariance of Stokes parameters 0 and 1 of one superposed instance: Eq. 42-43 for one instance, C = C_A + C_B + M(A,B) + M(A,B)^T, M = Minkowski::outer. *)
 From Coq Require Import Reals Lra List.
-From Epsic Require Import Scalar SpecPauli Quadrature Quadrature8 Gen_C05 Tie_C05_ens.
+From Epsic Require Import Scalar SpecPauli Quadrature Quadrature8 Gen_C05 Tie_C05_ens Tie_C05_ens_01_a Tie_C05_ens_01_b.
 Import ListNotations.
 Local Open Scope R_scope.
 Ltac ens := pose proof r3_sq as H; unfold partA, partB, F0, F1, F2, F3, SA, SB, E4, E1, Smean, mink_outer_spec, mink_inner_spec, eta;
   cbn [v4nth v0 v1 v2 v3 Nat.eqb]; autounfold with gen; ops_R; field_simplify_eq; ring [H].
 
-Lemma covA_01 ra0 ra1 ra2 ra3 rb0 rb1 rb2 rb3 :
-  E4 (fun p0 p1 p2 p3 => partA (F0 ra0 ra1 ra2 ra3 rb0 rb1 rb2 rb3) p0 p1 p2 p3 * partA (F1 ra0 ra1 ra2 ra3 rb0 rb1 rb2 rb3) p0 p1 p2 p3) - E4 (partA (F0 ra0 ra1 ra2 ra3 rb0 rb1 rb2 rb3)) * E4 (partA (F1 ra0 ra1 ra2 ra3 rb0 rb1 rb2 rb3))
-  = mink_outer_spec (SA ra0 ra1 ra2 ra3 rb0 rb1 rb2 rb3) (SA ra0 ra1 ra2 ra3 rb0 rb1 rb2 rb3) 0 1.
-Proof. ens. Qed.
-Lemma covB_01 ra0 ra1 ra2 ra3 rb0 rb1 rb2 rb3 :
-  E4 (fun q0 q1 q2 q3 => partB (F0 ra0 ra1 ra2 ra3 rb0 rb1 rb2 rb3) q0 q1 q2 q3 * partB (F1 ra0 ra1 ra2 ra3 rb0 rb1 rb2 rb3) q0 q1 q2 q3) - E4 (partB (F0 ra0 ra1 ra2 ra3 rb0 rb1 rb2 rb3)) * E4 (partB (F1 ra0 ra1 ra2 ra3 rb0 rb1 rb2 rb3))
-  = mink_outer_spec (SB ra0 ra1 ra2 ra3 rb0 rb1 rb2 rb3) (SB ra0 ra1 ra2 ra3 rb0 rb1 rb2 rb3) 0 1.
-Proof. ens. Qed.
-Lemma contraction_01 ra0 ra1 ra2 ra3 rb0 rb1 rb2 rb3 :
-  contraction (F0 ra0 ra1 ra2 ra3 rb0 rb1 rb2 rb3) (F1 ra0 ra1 ra2 ra3 rb0 rb1 rb2 rb3) = mink_outer_spec (SA ra0 ra1 ra2 ra3 rb0 rb1 rb2 rb3) (SB ra0 ra1 ra2 ra3 rb0 rb1 rb2 rb3) 0 1 + mink_outer_spec (SA ra0 ra1 ra2 ra3 rb0 rb1 rb2 rb3) (SB ra0 ra1 ra2 ra3 rb0 rb1 rb2 rb3) 1 0.
-Proof.
-  unfold contraction, coef, unit4, F0, F1, F2, F3, SA, SB, Smean, mink_outer_spec, mink_inner_spec, eta. cbn [v4nth v0 v1 v2 v3 Nat.eqb].
-  autounfold with gen; ops_R. field.
-Qed.
-(* Eq. 42-43 for one instance: C = C_A + C_B + M(A,B) + M(A,B)^T, M = Minkowski::outer *)
 Theorem ens_sup_cov_01 ra0 ra1 ra2 ra3 rb0 rb1 rb2 rb3 :
   E8 (fun p0 p1 p2 p3 q0 q1 q2 q3 => F0 ra0 ra1 ra2 ra3 rb0 rb1 rb2 rb3 p0 p1 p2 p3 q0 q1 q2 q3 * F1 ra0 ra1 ra2 ra3 rb0 rb1 rb2 rb3 p0 p1 p2 p3 q0 q1 q2 q3) - E8 (F0 ra0 ra1 ra2 ra3 rb0 rb1 rb2 rb3) * E8 (F1 ra0 ra1 ra2 ra3 rb0 rb1 rb2 rb3)
   = mink_outer_spec (SA ra0 ra1 ra2 ra3 rb0 rb1 rb2 rb3) (SA ra0 ra1 ra2 ra3 rb0 rb1 rb2 rb3) 0 1 + mink_outer_spec (SB ra0 ra1 ra2 ra3 rb0 rb1 rb2 rb3) (SB ra0 ra1 ra2 ra3 rb0 rb1 rb2 rb3) 0 1
